@@ -8,6 +8,8 @@ import (
 	"sort"
 	"strings"
 
+	"golang.org/x/tools/go/cfg"
+
 	"verif/checker/core"
 	"verif/checker/rules"
 )
@@ -18,6 +20,7 @@ import (
 // pointer-typed storage member (or of a local copy of it) is used only
 //   - after a nil test of that very expression in the same function, or
 //   - through a method of the storage type whose first statement is a nil-receiver guard.
+//
 // Otherwise a query of the "wrong" kind (Field on a list mask) or ForEachChild on `$.*` dereferences nil.
 func c14nilStorage(c *core.Check) {
 	pk := c.Prog.Pkg(fmRel)
@@ -393,5 +396,120 @@ func c14descUnwrappedIn(c *core.Check, fname string, min int) {
 	}
 	if n < min {
 		c.Unknown("descriptor-unwrapped-before-use", key, c.Prog.Rel(fd.Pos()), fmt.Sprintf("expected at least %d assignments to the descriptor, found %d", min, n))
+	}
+}
+
+// c14emptySets: `$.L[]` is rejected as an empty index set through a flag that is cleared when the loop has seen an
+// element. A separator is not an element: if the flag is cleared before the token is known to be one, `$.L[,]` and
+// `$.M{,}` are accepted and build a container mask that selects nothing (and whose JSON reads back as "everything").
+// Rule (go/cfg of addPath): from every assignment `<flag> = false`, where <flag> guards an "empty … set" error, each
+// path back to the loop head passes a node that records an element (an append to the id/key list, or the switch to
+// "all"), or leaves the function.
+func c14emptySets(c *core.Check) {
+	fd := c.Prog.FuncDecl(fmRel, "FieldMask.addPath")
+	key := fmRel + ".(FieldMask).addPath/empty-set"
+	if fd == nil {
+		c.Unknown("anchor", key, "", "missing")
+		return
+	}
+	info := c.Prog.Pkg(fmRel).TypesInfo
+	// flags: boolean locals tested in an if whose body returns an error built from a constant that mentions "empty"
+	flags := map[types.Object]bool{}
+	ast.Inspect(fd.Body, func(m ast.Node) bool {
+		is, ok := m.(*ast.IfStmt)
+		if !ok {
+			return true
+		}
+		id, ok := ast.Unparen(is.Cond).(*ast.Ident)
+		if !ok {
+			return true
+		}
+		mentions := false
+		ast.Inspect(is.Body, func(k ast.Node) bool {
+			if bl, ok := k.(*ast.BasicLit); ok && bl.Kind == token.STRING && strings.Contains(bl.Value, "empty") {
+				mentions = true
+			}
+			return true
+		})
+		if mentions {
+			if o := info.Uses[id]; o != nil {
+				flags[o] = true
+			}
+		}
+		return true
+	})
+	if len(flags) == 0 {
+		c.Unknown("empty-set-flag-cleared-by-elements-only", key, c.Prog.Rel(fd.Pos()), "no empty-set guard found in addPath")
+		return
+	}
+	records := func(n ast.Node) bool {
+		found := false
+		ast.Inspect(n, func(m ast.Node) bool {
+			switch x := m.(type) {
+			case *ast.CallExpr:
+				if rules.IsBuiltin(info, x, "append") {
+					found = true
+				}
+			case *ast.AssignStmt:
+				for _, l := range x.Lhs {
+					if sel, ok := l.(*ast.SelectorExpr); ok && sel.Sel.Name == "isAll" {
+						found = true
+					}
+				}
+			case *ast.ReturnStmt:
+				found = true
+			}
+			return !found
+		})
+		return found
+	}
+	g := rules.CFG(info, fd.Body, nil)
+	n := 0
+	for _, b := range g.Blocks {
+		for i, nd := range b.Nodes {
+			as, ok := nd.(*ast.AssignStmt)
+			if !ok || len(as.Lhs) != 1 || len(as.Rhs) != 1 || rules.ExprString(as.Rhs[0]) != "false" {
+				continue
+			}
+			id, ok := as.Lhs[0].(*ast.Ident)
+			if !ok || !flags[info.Uses[id]] {
+				continue
+			}
+			n++
+			// forward exploration; a block that tests the flag again (the loop came round) ends a path
+			bad := false
+			seen := map[int32]bool{}
+			var visit func(blk *cfg.Block, from int)
+			visit = func(blk *cfg.Block, from int) {
+				if bad {
+					return
+				}
+				for _, x := range blk.Nodes[from:] {
+					if records(x) {
+						return
+					}
+					// reaching the next token fetch without a record: the loop came round
+					if asg, ok := x.(*ast.AssignStmt); ok && len(asg.Rhs) == 1 {
+						if _, name, _, ok := rules.SelectorCall(asg.Rhs[0]); ok && name == "Next" {
+							bad = true
+							return
+						}
+					}
+				}
+				for _, s := range blk.Succs {
+					if !seen[s.Index] {
+						seen[s.Index] = true
+						visit(s, 0)
+					}
+				}
+			}
+			visit(b, i+1)
+			c.Decide(!bad, "empty-set-flag-cleared-by-elements-only", fmt.Sprintf("%s#%d", key, n), c.Prog.Rel(as.Pos()),
+				"after the flag is cleared the iteration records an element (or leaves)",
+				"the flag that guards the empty-set error is cleared by a token that records nothing (a separator): `$.L[,]` / `$.M{,}` are accepted and give a container mask without children — it selects nothing, and its JSON form reads back as selecting everything")
+		}
+	}
+	if n < 2 {
+		c.Unknown("empty-set-flag-cleared-by-elements-only", key, c.Prog.Rel(fd.Pos()), fmt.Sprintf("expected two flag-clearing sites (index sets and key sets), found %d", n))
 	}
 }
